@@ -139,6 +139,6 @@ def shard(args):
 
 def run(tier, seed, procs):
     quick = tier == 'quick'
-    shards, per = (8, 60) if quick else (16, 3000)
+    shards, per = (8, 150) if quick else (16, 3000)
     cols = drive.pool_map(shard, [(per, seed * 1000 + i) for i in range(shards)], procs)
     return drive.merge_all(PROP, cols)
